@@ -354,7 +354,11 @@ func splitPrefix(rt *rapid.T, req *gpb.SetRequest, label string) {
 		return
 	}
 	k := rapid.IntRange(0, n).Draw(rt, label+".prefixlen")
-	req.Prefix = &gpb.Path{Elem: append([]*gpb.PathElem(nil), clonePath(ps[0]).Elem[:k]...)}
+	// the prefix is built the way a decoder or an element-by-element append builds it: its Elem slice has
+	// spare capacity, so a join that appends to it writes into memory the caller still owns
+	pe := make([]*gpb.PathElem, 0, k+4)
+	pe = append(pe, clonePath(ps[0]).Elem[:k]...)
+	req.Prefix = &gpb.Path{Elem: pe}
 	for _, p := range ps {
 		p.Elem = p.Elem[k:]
 	}
